@@ -7,6 +7,10 @@
 (*   [op "any", path, hs]  [op "get", path, hs]  Any / Get                 *)
 (*   [op "combo", path, hs, calls]               Combo(path, hs).M(hs')... *)
 (*   [op "autohead", v]                          AutoHead(v)               *)
+(*   [op "cdecl", cid, path, hs]                 c := Combo(path, hs...)   *)
+(*   [op "ccall", cid, m, hs]                    c.M(hs'...)  - anywhere   *)
+(*     later: the route is registered where the METHOD is called, with the *)
+(*     groups open there                                                   *)
 (* Layer P (Flatten) is positional: the registrations of instruction i     *)
 (* get the paths / handlers of the groups still open at i (outermost       *)
 (* first) and the AutoHead value set by the last autohead before i.        *)
@@ -29,8 +33,14 @@ ComboRegs(calls, i, path, hs, ah) ==
   IF i > Len(calls) THEN <<>>
   ELSE (IF calls[i].m = "GET" THEN GetRegs(path, hs \o calls[i].hs, ah) ELSE <<Reg(calls[i].m, path, hs \o calls[i].hs)>>)
        \o ComboRegs(calls, i + 1, path, hs, ah)
+\* a method list: every entry is one registration, "*" stands for all nine methods
+RECURSIVE MsRegs(_, _, _, _)
+MsRegs(ms, k, path, hs) ==
+  IF k > Len(ms) THEN <<>>
+  ELSE (IF ms[k] = "*" THEN [j \in 1..9 |-> Reg(Methods9[j], path, hs)] ELSE <<Reg(ms[k], path, hs)>>) \o MsRegs(ms, k + 1, path, hs)
+KnownMethod(m) == m = "*" \/ \E j \in 1..9 : Methods9[j] = m
 InsRegs(ins, prefix, ghs, ah) ==
-  CASE ins.op = "route" -> [k \in 1..Len(ins.ms) |-> Reg(ins.ms[k], prefix \o ins.path, ghs \o ins.hs)]
+  CASE ins.op = "route" -> MsRegs(ins.ms, 1, prefix \o ins.path, ghs \o ins.hs)
     [] ins.op = "any"   -> [k \in 1..9 |-> Reg(Methods9[k], prefix \o ins.path, ghs \o ins.hs)]
     [] ins.op = "get"   -> GetRegs(prefix \o ins.path, ghs \o ins.hs, ah)
     [] ins.op = "combo" -> ComboRegs(ins.calls, 1, prefix \o ins.path, ghs \o ins.hs, ah)
@@ -39,6 +49,15 @@ InsRegs(ins, prefix, ghs, ah) ==
 ComboDupAt(ins) == IF ins.op # "combo" THEN 0
                    ELSE LET D == { i \in 1..Len(ins.calls) : \E j \in 1..(i - 1) : ins.calls[j].m = ins.calls[i].m }
                         IN IF D = {} THEN 0 ELSE CHOOSE i \in D : \A j \in D : i <= j
+
+\* a kept Combo value: declaration and method calls are separate instructions
+CDecl(p, cid) == p[CHOOSE j \in 1..Len(p) : p[j].op = "cdecl" /\ p[j].cid = cid]
+CCallDup(p, i) == p[i].op = "ccall" /\ \E j \in 1..(i - 1) : p[j].op = "ccall" /\ p[j].cid = p[i].cid /\ p[j].m = p[i].m
+CCallRegs(p, i, prefix, ghs, ah) ==
+  LET d == CDecl(p, p[i].cid)
+      path == prefix \o d.path
+      hs == ghs \o d.hs \o p[i].hs
+  IN IF p[i].m = "GET" THEN GetRegs(path, hs, ah) ELSE <<Reg(p[i].m, path, hs)>>
 
 (* ------------------------------ layer P ------------------------------- *)
 \* groups open at position i: the "group" instructions before i whose matching "end" is not before i
@@ -59,10 +78,13 @@ FlattenFrom(p, i) ==
            d == ComboDupAt(p[i])
        IN IF d # 0   \* the duplicate call panics: the calls before it are registered, nothing after
           THEN ComboRegs(SubSeq(p[i].calls, 1, d - 1), 1, ConcatPaths(gs, 1) \o p[i].path, ConcatHs(gs, 1) \o p[i].hs, ah)
+          ELSE IF CCallDup(p, i) THEN <<>>
+          ELSE IF p[i].op = "ccall" THEN CCallRegs(p, i, ConcatPaths(gs, 1), ConcatHs(gs, 1), ah) \o FlattenFrom(p, i + 1)
           ELSE InsRegs(p[i], ConcatPaths(gs, 1), ConcatHs(gs, 1), ah) \o FlattenFrom(p, i + 1)
 P_Flatten(p) == FlattenFrom(p, 1)
-\* a program panics when Combo is given a method twice or when a (method, path) is registered twice (C08)
-P_Panics(p) == \/ \E i \in 1..Len(p) : ComboDupAt(p[i]) # 0
+\* a program panics when Combo is given a method twice, when a method is unknown or when a (method, path) is registered twice (C08)
+P_Panics(p) == \/ \E i \in 1..Len(p) : ComboDupAt(p[i]) # 0 \/ CCallDup(p, i)
+               \/ \E i \in 1..Len(p) : p[i].op = "route" /\ \E k \in 1..Len(p[i].ms) : ~KnownMethod(p[i].ms[k])   \* C08: unknown method
                \/ LET f == P_Flatten(p) IN \E a, b \in 1..Len(f) : a # b /\ f[a].m = f[b].m /\ f[a].path = f[b].path
 
 (* ------------------------------ layer I ------------------------------- *)
@@ -74,6 +96,8 @@ ExecFrom(p, i, stack, ah) ==
        CASE ins.op = "group" -> ExecFrom(p, i + 1, Append(stack, ins), ah)
          [] ins.op = "end" -> ExecFrom(p, i + 1, IF "NOPOP" \in Dev THEN stack ELSE SubSeq(stack, 1, Len(stack) - 1), ah)
          [] ins.op = "autohead" -> ExecFrom(p, i + 1, stack, ins.v)
+         [] ins.op = "ccall" -> IF CCallDup(p, i) THEN <<>>
+                                ELSE CCallRegs(p, i, ConcatPaths(stack, 1), ConcatHs(stack, 1), ah) \o ExecFrom(p, i + 1, stack, ah)
          [] OTHER -> IF ComboDupAt(ins) # 0
                      THEN ComboRegs(SubSeq(ins.calls, 1, ComboDupAt(ins) - 1), 1, ConcatPaths(stack, 1) \o ins.path, ConcatHs(stack, 1) \o ins.hs, ah)
                      ELSE InsRegs(ins, ConcatPaths(stack, 1), ConcatHs(stack, 1), ah) \o ExecFrom(p, i + 1, stack, ah)
